@@ -175,6 +175,15 @@ class TObj:
         self.is_parameter = False  # nn.Parameter
         self.valkind = None  # 'bern' for 0/1 samples, 'perm', 'bool' ...
         self.grad = None
+        self.version = 0  # torch's in-place modification counter (_version): bumped by in-place writes, not by `.data = ...`
+        self.dtype_src = None  # object whose dtype this one shares (clone / index / detach)
+
+    def dtype_root(self):
+        o, seen = self, set()
+        while o.dtype_src is not None and o.id not in seen:
+            seen.add(o.id)
+            o = o.dtype_src
+        return o
 
     def roots(self):
         out = {self}
